@@ -11,7 +11,7 @@ use crate::exch::{ExchCfg, Gate, Menu, ServerMsg};
 use crate::exch_run::{replay_exchange, run_exchanges};
 use crate::gen::*;
 
-pub const RULE: &str = "requests {POST, PUT, PATCH, GET with send-body-despite-method} x {HTTP/1.0, 1.1} x {Content-Length: 3, chunked} (POST / PUT / GET-despite also with Content-Length: 0), all with Expect: 100-continue (once as the second of two Expect field lines), plus flows obtained by following a 302 / 307 redirect that inherit the Expect header and are converted with send-body-despite-method; server: bare interim 100 with reason {Continue, empty, none, 200-byte phrase} in HTTP/1.0 and 1.1 followed by the final response after the body (once with the final response sent in one go with the 100, ahead of the body), or a refusal = final head with status {101,102,103,199,200,204,205,300,302,403,417,500,600,999} bare / with 1 / with 2 fields (200 and 403 also with Connection: keep-alive and a 320-byte field line, with an empty-valued field first, and with Connection: close in front of a close-delimited body) arriving instead of the 100, or a silent server; per exchange the COMPLETE graph with 1-byte arrivals, try_read_100 at every window (while can_keep_await_100), give-up at EVERY prefix, then both later paths (body then response incl. late 100, or response directly) run to Cleanup. plus interleaving: all 25 ordered pairs of five handshakes (two bare refusals, a refusal with fields, a 100 in time, a silent server) driven alternately on one thread. distinct = distinct (exchange, final observation) pairs (several per exchange are legitimate here: give-up before a refusal sends the body)";
+pub const RULE: &str = "requests {POST, PUT, PATCH, GET with send-body-despite-method} x {HTTP/1.0, 1.1} x {Content-Length: 3, chunked} (POST / PUT / GET-despite also with Content-Length: 0), all with Expect: 100-continue (once as the second of two Expect field lines), plus flows obtained by following a 302 / 307 redirect that inherit the Expect header and are converted with send-body-despite-method; server: bare interim 100 with reason {Continue, empty, none, 200-byte phrase} in HTTP/1.0 and 1.1 followed by the final response after the body (once with the final response sent in one go with the 100, ahead of the body; once with TWO interim 100s in a row - the one met after the handshake is over is a stray interim response: handed out or skipped, never final), or a refusal = final head with status {101,102,103,199,200,204,205,300,302,403,417,500,600,999} bare / with 1 / with 2 fields (200 and 403 also with Connection: keep-alive and a 320-byte field line, with an empty-valued field first, and with Connection: close in front of a close-delimited body) arriving instead of the 100, or a silent server; per exchange the COMPLETE graph with 1-byte arrivals, try_read_100 at every window (while can_keep_await_100), give-up at EVERY prefix, then both later paths (body then response incl. late 100, or response directly) run to Cleanup. plus interleaving: all 25 ordered pairs of five handshakes (two bare refusals, a refusal with fields, a 100 in time, a silent server) driven alternately on one thread. distinct = distinct (exchange, final observation) pairs (several per exchange are legitimate here: give-up before a refusal sends the body)";
 
 fn long_phrase() -> String {
     let mut s = String::new();
@@ -92,6 +92,11 @@ pub fn build(tier: Tier) -> Vec<Arc<ExchCfg>> {
         // a server that sends the 100 and its final response in one go, without waiting for the body:
         // the look then holds the 100 AND the start of another head - the 100 is consumed exactly all the same
         scripts.push((server(final_ok.clone(), Some(interim_100("1.1", "Continue")), Gate::AfterHead), next.clone()));
+        // two interim 100s in a row: whichever is met after the handshake is over is a stray interim response
+        // (handed out or skipped, never final) and the flow stays usable to completion
+        let mut two = server(final_ok.clone(), Some(interim_100("1.1", "Continue")), Gate::AfterBody);
+        two.insert(0, ServerMsg { msg: interim_100("1.1", "Continue"), gate: Gate::AfterHead });
+        scripts.push((two, next.clone()));
         // silent server
         scripts.push((server(final_ok.clone(), None, Gate::AfterBody), next.clone()));
         // refusals
